@@ -7,6 +7,7 @@ import StoneVerif.Model.Rt.Encode
 import StoneVerif.Model.Rt.Decode
 import StoneVerif.Model.Rt.Ir
 import StoneVerif.Model.Rt.Spec
+import StoneVerif.Model.Rt.WF
 /-! Protocol handlers of the `rt.*` suites (C04–C08, C10, C13). -/
 open Lean
 namespace Driver.Rt
@@ -323,7 +324,10 @@ def handle (st : State) (op : String) (j : Json) : Except String (State × Json)
     let ext ← match jopt j "ext" with
       | some e => extTablesOf e
       | none => pure st.ext
-    pure ({ env, ext }, Json.mkObj [("ok", true), ("structs", natTo env.structs.length), ("unions", natTo env.unions.length)])
+    pure ({ env, ext }, Json.mkObj [("ok", true), ("structs", natTo env.structs.length), ("unions", natTo env.unions.length),
+      ("envWF", envWF env),
+      ("notWF", Json.arr ((env.structs.filter (fun s => !s.wf env)).map (fun s => Json.str s.cls) ++
+                          (env.unions.filter (fun u => !u.wf env)).map (fun u => Json.str u.cls)).toArray)])
   | "rt.vdump" =>
     let t ← tyOf (← jobj j "ty")
     pure (st, Json.mkObj [("ok", ptyTo t)])
